@@ -45,7 +45,7 @@ MsgItems(m) ==
 RECURSIVE FlatItems(_)
 FlatItems(ms) == IF ms = <<>> THEN <<>> ELSE MsgItems(Head(ms)) \o FlatItems(Tail(ms))
 RECURSIVE SumFor(_, _)
-SumFor(items, k) == IF items = <<>> THEN 0 ELSE (IF Head(items).key = k THEN Head(items).qty ELSE 0) + SumFor(Tail(items), k)
+SumFor(items, k) == IF items = <<>> THEN 0 ELSE PAdd(IF Head(items).key = k THEN Head(items).qty ELSE 0, SumFor(Tail(items), k))
 InFlightKeys(w) == {it.key : it \in Range(FlatItems(w.msgs))}
 InFlight(w, k) == SumFor(FlatItems(w.msgs), k)
 ItemKeys(items) == {it.key : it \in Range(items)}
@@ -54,9 +54,9 @@ Carried(w) == {<<w.msgs[i].id, w.msgs[i].to, w.msgs[i].rae, MsgItems(w.msgs[i])>
 
 AllKeys(w) == UNION {DOMAIN w.acct[a].esdt : a \in Accts(w)} \cup InFlightKeys(w)
 RECURSIVE SumOver(_, _, _)
-SumOver(w, k, as) == IF as = {} THEN 0 ELSE LET a == CHOOSE x \in as : TRUE IN ValAt(w, a, k) + SumOver(w, k, as \ {a})
-Total(w, k) == SumOver(w, k, Accts(w)) + InFlight(w, k)
-TotalI(w, items, k) == SumOver(w, k, {a \in Accts(w) : k \in DOMAIN w.acct[a].esdt}) + SumFor(items, k)
+SumOver(w, k, as) == IF as = {} THEN 0 ELSE LET a == CHOOSE x \in as : TRUE IN PAdd(ValAt(w, a, k), SumOver(w, k, as \ {a}))
+Total(w, k) == PAdd(SumOver(w, k, Accts(w)), InFlight(w, k))
+TotalI(w, items, k) == PAdd(SumOver(w, k, {a \in Accts(w) : k \in DOMAIN w.acct[a].esdt}), SumFor(items, k))
 
 ---------------------------------------------------------------------------
 \* history: supply per storage key, nonces ever issued per token
@@ -64,7 +64,7 @@ SupplyOf(h, k) == IF k \in DOMAIN h.supply THEN h.supply[k] ELSE 0
 Totals(w) == LET items == FlatItems(w.msgs) IN [k \in AllKeys(w) |-> TotalI(w, items, k)]
 Hist0(w) == [supply |-> Totals(w), tsupply |-> Totals(w), maxn |-> [t \in {} |-> 0], made |-> {}, flagged |-> {}]
 MaxN(h, t) == IF t \in DOMAIN h.maxn THEN h.maxn[t] ELSE 0
-Bump(h, k, d) == [h EXCEPT !.supply = Put(@, k, SupplyOf(h, k) + d)]
+Bump(h, k, d) == [h EXCEPT !.supply = Put(@, k, PAdd(SupplyOf(h, k), d))]
 
 IsOk(ev) == ev.res = "ok"
 Call(ev) == ev.a \in {"exec", "deliver"}
@@ -79,14 +79,14 @@ HistStep(h, w, ev) ==
     \* destination side (no sender account, not the delivery of one of the world's own messages)
     CASE ev.fn = "ESDTTransfer" /\ ev.a = "exec" /\ ~ev.snd /\ NArgs(ev) >= 2 -> Bump(h, Arg(ev,1).h, Arg(ev,2).q)
       [] ev.fn = "ESDTLocalMint" /\ NArgs(ev) >= 2 -> Bump(h, Arg(ev,1).h, Arg(ev,2).q)
-      [] ev.fn \in {"ESDTLocalBurn", "ESDTBurn"} /\ NArgs(ev) >= 2 -> Bump(h, Arg(ev,1).h, 0 - Arg(ev,2).q)
+      [] ev.fn \in {"ESDTLocalBurn", "ESDTBurn"} /\ NArgs(ev) >= 2 -> Bump(h, Arg(ev,1).h, PNeg(Arg(ev,2).q))
       [] ev.fn = "ESDTNFTCreate" /\ NArgs(ev) >= 2 ->
            LET n == CtrOf(w.acct[ev.caller], Arg(ev,1).h) + 1 IN
            [Bump(h, Arg(ev,1).h \o NBHex(n), Arg(ev,2).q) EXCEPT !.maxn = Put(@, Arg(ev,1).h, Max(MaxN(h, Arg(ev,1).h), n)),
                                                                !.made = @ \cup {<<Arg(ev,1).h, n>>}]
       [] ev.fn = "ESDTNFTAddQuantity" /\ NArgs(ev) >= 3 -> Bump(h, Arg(ev,1).h \o NBHex(Arg(ev,2).n), Arg(ev,3).q)
-      [] ev.fn = "ESDTNFTBurn" /\ NArgs(ev) >= 3 -> Bump(h, Arg(ev,1).h \o NBHex(Arg(ev,2).n), 0 - Arg(ev,3).q)
-      [] ev.fn = "ESDTWipe" /\ NArgs(ev) >= 1 -> Bump(h, Arg(ev,1).h, 0 - ValAt(w, ev.rcpt, Arg(ev,1).h))
+      [] ev.fn = "ESDTNFTBurn" /\ NArgs(ev) >= 3 -> Bump(h, Arg(ev,1).h \o NBHex(Arg(ev,2).n), PNeg(Arg(ev,3).q))
+      [] ev.fn = "ESDTWipe" /\ NArgs(ev) >= 1 -> Bump(h, Arg(ev,1).h, PNeg(ValAt(w, ev.rcpt, Arg(ev,1).h)))
       [] OTHER -> h IN
   IF ev.fn \in {"ESDTFreeze", "ESDTPause"} /\ NArgs(ev) >= 1 THEN [h1 EXCEPT !.flagged = @ \cup {Arg(ev,1).h}] ELSE h1
 
@@ -100,7 +100,7 @@ HistT(h, ev, w2) ==
   IF ~Call(ev) THEN h
   ELSE IF ev.fn \notin TransferFns THEN [h EXCEPT !.tsupply = Totals(w2)]
   ELSE IF IsOk(ev) /\ ev.fn = "ESDTTransfer" /\ ev.a = "exec" /\ ~ev.snd /\ NArgs(ev) >= 2
-       THEN [h EXCEPT !.tsupply = Put(@, Arg(ev,1).h, TSupplyOf(h, Arg(ev,1).h) + Arg(ev,2).q)]
+       THEN [h EXCEPT !.tsupply = Put(@, Arg(ev,1).h, PAdd(TSupplyOf(h, Arg(ev,1).h), Arg(ev,2).q))]
   ELSE h
 
 \* C01 / C02 state invariants
